@@ -1,5 +1,6 @@
 """C05 - total modulus = interpolated static table + phonon part, end to end from files."""
 import copy
+import random
 import importlib
 import math
 import shutil
@@ -556,6 +557,58 @@ def variant_checks(ctx, rd, idx, ds, cfg, o, dp, desc):
                             % (a + 1, b + 1), input=desc, expected=s1.tolist(), observed=s3.tolist())
 
 
+def rerun_probe(ctx, rd, nprobe):
+    """The SAME files run twice in one process with different symmetry settings: first with a crystal system
+    whose filling changes the table (cubic-consistent orthotropic table with noise below the residual
+    tolerance), then without symmetry.  The second run must interpolate the values tabulated in the file -
+    nothing of the earlier run (its filling, cached parses) may leak into it."""
+    rng = ctx.rng
+    g = float(GPA_CODATA)
+    for pi in range(nprobe):
+        ds = synth.make_dataset(random.Random(rng.randrange(10 ** 6)), nv=6, nq=2, na=1, lattice=False, keys=list(synth.ORTHO))
+        rows = []
+        for r in ds["elast"]["rows"]:
+            a, b, c = r[0], r[3], r[6]          # c11, c12, c44 as the cubic values at this volume
+            n = lambda: round(rng.uniform(-0.08, 0.08), 3)
+            rows.append([a + n(), a + n(), a + n(), b + n(), b + n(), b + n(), c + n(), c + n(), c + n()])
+        ds["elast"]["rows"] = rows
+        d0 = rd / ("rerun%02d" % pi)
+        cfg = dict(NT=3, DT=300, NTV=8, DELTA_P=2.0, method="lsq_poly", order=2, system="cubic")
+        desc = dict(probe="same files, system cubic then triclinic", directory=str(d0), table=rows,
+                    volumes=ds["elast"]["volumes"])
+        try:
+            c1, dp = build(d0, ds, cfg, exact=True)
+            (d0 / "settings.yaml").write_text(yaml.safe_dump(settings_of(dict(cfg, system="triclinic"), dp), sort_keys=False))
+            c2 = run_calc(d0 / "settings.yaml")
+        except Precondition:
+            continue
+        except Exception as ex:
+            ctx.failure("calculator-raises", "Calculator raised %s: %s in the same-files re-run probe"
+                        % (type(ex).__name__, ex), input=desc)
+            continue
+        ctx.case(dict(kind="rerun-probe", rows=rows), nontrivial=True)
+        ctx.count("same-files re-run probes")
+        evols = [float(v) for v in ds["elast"]["volumes"]]
+        keys = [tuple(int(ch) for ch in k) for k in ds["elast"]["keys"]]
+        sc = max(abs(x) for r in rows for x in r) / g
+        for key in c2.modulus_keys:
+            k = vk(key)
+            if k not in keys:
+                ctx.failure("static-part-leaks-earlier-run", "component %s appears in a run without symmetry although "
+                            "the file does not tabulate it (filling of the earlier cubic run leaked)" % kstr(k), input=desc)
+                break
+            col = [row[keys.index(k)] for row in rows]
+            want = numpy.array(py_fit(evols, [x / g for x in col], numpy.asarray(c2.v_array, float)))
+            got = numpy.array(c2._full_modulus.get_static_modulus(key), float)
+            if not numpy.max(numpy.abs(got - want)) <= 1e-8 * sc:
+                ctx.failure("static-part-leaks-earlier-run",
+                            "same files run again without symmetry after a cubic run: static %s is not the interpolated "
+                            "tabulated column (max diff %.3g Ry/bohr^3; the earlier run's filled values are used)"
+                            % (kstr(k), float(numpy.max(numpy.abs(got - want)))), input=desc,
+                            expected=want.tolist(), observed=got.tolist())
+                break
+
+
 # ---------------------------------------------------------------------------------------------
 
 def run(ctx):
@@ -659,6 +712,7 @@ def run(ctx):
         oracle(ctx, o, cfg, desc)
         if i < nvar:
             variant_checks(ctx, rd, i, ds, cfg, o, dp, desc)
+    rerun_probe(ctx, rd, 2 if ctx.tier == "quick" else 8)
     ctx.extra["calculator_seconds"] = round(t_calc, 2)
 
     per = 2
